@@ -81,8 +81,13 @@ def compare_outcome(expected, observed):
     else:
         if expected.error != (ri.ANY,) and observed.get("error") not in expected.error:
             fails.append(("error-name", "observed error %r expected one of %r" % (observed.get("error"), expected.error)))
-        elif expected.exact_cause and expected.cause is not ri.ANY and observed.get("cause") != expected.cause:
-            fails.append(("fail-cause", "observed cause %r expected %r" % (observed.get("cause"), expected.cause)))
+        elif expected.exact_cause and expected.cause is not ri.ANY and expected.cause != "":
+            oc = observed.get("cause")
+            if expected.exact_cause == "contains":
+                if not (isinstance(oc, str) and expected.cause in oc):
+                    fails.append(("fail-cause", "observed cause %r does not contain the Fail state's Cause %r" % (oc, expected.cause)))
+            elif oc != expected.cause:
+                fails.append(("fail-cause", "observed cause %r expected %r" % (oc, expected.cause)))
     return fails
 
 
